@@ -215,7 +215,7 @@ class HH2Case:
         # estimator objects) from one call to the next
         key = (op.get('order'),
                op.get('seed') if op.get('order') == 'perm' else None)
-        if self.run.get('reuse') and key in self._lists:
+        if self.run.get('reuse') is True and key in self._lists:
             self.cov.inc('probe.same_list_object_again')
             return self._lists[key]
         if op.get('order') == 'impl':
@@ -224,8 +224,15 @@ class HH2Case:
             elems = list(self.coarse)
             if op.get('order') == 'perm':
                 stream(op.get('seed', 0), 'perm').shuffle(elems)
+        if self.run.get('reuse') == 'recycle' and (
+                self._lists.get('last') is not None):
+            obj = self._lists['last']
+            obj[:] = elems
+            elems = obj
+            self.cov.inc('probe.list_object_recycled_with_other_content')
         if self.run.get('reuse'):
             self._lists[key] = elems
+            self._lists['last'] = elems
         return elems
 
     def estimator(self, key, make):
@@ -466,7 +473,7 @@ def gen_run(seed, params):
     # between calls, the densities change
     hrng = stream(seed, 'workload-hist')
     if hrng.random() < params.get('p_reuse', 0.35):
-        run['reuse'] = True
+        run['reuse'] = True if hrng.random() < 0.65 else 'recycle'
         kinds = [o['op'] for o in ops if o['op'] in ('hh2', 'hier')]
         kind = hrng.choice(kinds) if kinds else hrng.choice(['hh2', 'hier'])
         first = next((o for o in ops if o['op'] == kind), None)
@@ -482,6 +489,9 @@ def gen_run(seed, params):
             if kind == 'hh2':
                 extra['use_mp'] = hrng.random() < 0.7
             extra['density_seed'] = hrng.randrange(1 << 30)
+            if run['reuse'] == 'recycle':
+                extra['order'] = 'perm'
+                extra['seed'] = hrng.randrange(1 << 30)
             ops.append(extra)
     return run
 
